@@ -57,13 +57,20 @@ class Check(c01.Check):
                 vals = [rng.choice([0, 1, 2, -1, 0.5, 0.25, 440, 7]) for _ in range(size)]
                 sig.append([f'p{k}', rate, vals if size > 1 else vals[0]])
             sigs.append(sig)
-        res, err = common.run_impl('c01', 'desc_probe', {'sigs': sigs}, timeout=900)
+        # in half of the definitions the output bus is one of the scalar parameters: the reader must
+        # name that parameter as the starting channel of the output
+        bus = {}
+        for i, sig in enumerate(sigs):
+            scal = [name for name, rate, d in sig if not isinstance(d, list) and rate in (None, 'kr', 'ir')]
+            if scal and rng.random() < 0.5:
+                bus[str(i)] = rng.choice(scal)
+        res, err = common.run_impl('c01', 'desc_probe', {'sigs': sigs, 'bus': bus}, timeout=900)
         if res is None:
             self.notes.append('desc probe failed: ' + err[-300:])
             return []
         out = []
         self._desc_probe = len(res)
-        for sig, r in zip(sigs, res):
+        for si, (sig, r) in enumerate(zip(sigs, res)):
             if 'error' in r:
                 out.append({'what': f'definition with parameters {sig} not built/read: {r["error"]}',
                             'signature': 'c02:desc-probe-error', 'case': {'sig': sig}})
@@ -95,6 +102,9 @@ class Check(c01.Check):
                     if got != [i0, rn, wv]:
                         problem = f'reader recovers {name} as {got}, expected {[i0, rn, wv]}'
                         break
+            if not problem and str(si) in bus and r.get('out_start') != [bus[str(si)]]:
+                problem = (f'output unit writes to the bus given by parameter {bus[str(si)]!r}; the reader recovers '
+                           f'starting channel {r.get("out_start")}')
             if problem:
                 out.append({'what': f'parameters {sig}: {problem}', 'signature': 'c02:desc-layout', 'case': {'sig': sig}})
         return out
